@@ -201,17 +201,23 @@ theorem fakeFinish_staged (s : St) (c : Nat) (st : Fin3) : ((fakeFinish s c st).
 
 /-! ## launching: `stageIn` fold followed by `runComp` fold -/
 
-theorem foldl_stageIn_comp (l : List Nat) (s : St) (j : Nat) :
-    ((l.foldl stageIn s).comp j) = if j ∈ l then { s.comp j with staged := true } else s.comp j := by
+theorem foldl_stageIn_comp (wf : Wf) (l : List Nat) (s : St) (j : Nat) :
+    ∃ w, ((l.foldl (stageIn wf) s).comp j) =
+      if j ∈ l then { s.comp j with staged := true, watch := w } else s.comp j := by
   induction l generalizing s with
-  | nil => simp
+  | nil => exact ⟨none, by simp⟩
   | cons a l ih =>
-    simp only [List.foldl_cons, ih, stageIn, upd_comp, List.mem_cons]
-    by_cases h1 : j ∈ l <;> by_cases h2 : j = a <;> simp [h1, h2]
+    obtain ⟨w, hw⟩ := ih (stageIn wf s a)
+    simp only [List.foldl_cons, hw, List.mem_cons]
+    by_cases h1 : j ∈ l <;> by_cases h2 : j = a
+    · subst h2; exact ⟨w, by simp [h1, stageIn]⟩
+    · exact ⟨w, by simp [h1, h2, stageIn]⟩
+    · subst h2; exact ⟨_, by simp [h1, stageIn]; rfl⟩
+    · exact ⟨none, by simp [h1, h2, stageIn]⟩
 
-theorem foldl_stageIn_rest (l : List Nat) (s : St) :
-    (l.foldl stageIn s).done = s.done ∧ (l.foldl stageIn s).pending = s.pending ∧
-    (l.foldl stageIn s).cur = s.cur ∧ (l.foldl stageIn s).stop = s.stop := by
+theorem foldl_stageIn_rest (wf : Wf) (l : List Nat) (s : St) :
+    (l.foldl (stageIn wf) s).done = s.done ∧ (l.foldl (stageIn wf) s).pending = s.pending ∧
+    (l.foldl (stageIn wf) s).cur = s.cur ∧ (l.foldl (stageIn wf) s).stop = s.stop := by
   induction l generalizing s with
   | nil => simp
   | cons a l ih => simp only [List.foldl_cons, ih, stageIn, upd_done, upd_pending, upd_cur, upd_stop, and_self]
@@ -238,42 +244,44 @@ theorem foldl_runComp_rest (wf : Wf) (l : List Nat) (s : St) :
   | cons a l ih => simp [List.foldl_cons, ih, runComp]
 
 theorem launch_comp (wf : Wf) (l : List Nat) (s : St) (j : Nat) :
-    ∃ k, ((l.foldl (runComp wf) (l.foldl stageIn s)).comp j) =
-      if j ∈ l then { s.comp j with staged := true, ran := true, launches := k } else s.comp j := by
-  obtain ⟨k, hk⟩ := foldl_runComp_comp wf l (l.foldl stageIn s) j
-  refine ⟨k, ?_⟩
-  rw [hk, foldl_stageIn_comp]
+    ∃ k w, ((l.foldl (runComp wf) (l.foldl (stageIn wf) s)).comp j) =
+      if j ∈ l then { s.comp j with staged := true, ran := true, launches := k, watch := w } else s.comp j := by
+  obtain ⟨k, hk⟩ := foldl_runComp_comp wf l (l.foldl (stageIn wf) s) j
+  obtain ⟨w, hw⟩ := foldl_stageIn_comp wf l s j
+  refine ⟨k, w, ?_⟩
+  rw [hk, hw]
   split <;> rfl
 
 theorem launch_rest (wf : Wf) (l : List Nat) (s : St) :
-    (l.foldl (runComp wf) (l.foldl stageIn s)).done = s.done ∧
-    (l.foldl (runComp wf) (l.foldl stageIn s)).pending = s.pending ∧
-    (l.foldl (runComp wf) (l.foldl stageIn s)).cur = s.cur ∧
-    (l.foldl (runComp wf) (l.foldl stageIn s)).stop = s.stop := by
-  obtain ⟨a, b, c, d⟩ := foldl_runComp_rest wf l (l.foldl stageIn s)
-  obtain ⟨a', b', c', d'⟩ := foldl_stageIn_rest l s
+    (l.foldl (runComp wf) (l.foldl (stageIn wf) s)).done = s.done ∧
+    (l.foldl (runComp wf) (l.foldl (stageIn wf) s)).pending = s.pending ∧
+    (l.foldl (runComp wf) (l.foldl (stageIn wf) s)).cur = s.cur ∧
+    (l.foldl (runComp wf) (l.foldl (stageIn wf) s)).stop = s.stop := by
+  obtain ⟨a, b, c, d⟩ := foldl_runComp_rest wf l (l.foldl (stageIn wf) s)
+  obtain ⟨a', b', c', d'⟩ := foldl_stageIn_rest wf l s
   exact ⟨a.trans a', b.trans b', c.trans c', d.trans d'⟩
 
-theorem CI.launch {wf exc c cs dn pend} (h : CI wf exc c cs dn pend) (ho : c ∈ wf.order) (k : Nat) :
-    CI wf exc c { cs with staged := true, ran := true, launches := k } dn pend := by
+theorem CI.launch {wf exc c cs dn pend} (h : CI wf exc c cs dn pend) (ho : c ∈ wf.order) (k : Nat)
+    (w : Option (List Nat)) :
+    CI wf exc c { cs with staged := true, ran := true, launches := k, watch := w } dn pend := by
   obtain ⟨k0, k1, k2, k3, k3', k4, k5, k6, k8, k8', k9, k9', k10, u, b1, b2, s1, s2⟩ := h
   constructor <;> simp_all [afterPM, restartable]
   intro a b c; cases hr : cs.ran <;> simp_all
 
 theorem launch_inv {wf exc s} (l : List Nat) (hI : Inv wf exc s) (hl : ∀ c ∈ l, c ∈ wf.order) :
-    Inv wf exc (l.foldl (runComp wf) (l.foldl stageIn s)) := by
+    Inv wf exc (l.foldl (runComp wf) (l.foldl (stageIn wf) s)) := by
   obtain ⟨hd, hp, hc, _⟩ := launch_rest wf l s
   refine ⟨fun j => ?_, by rw [hc]; exact hI.curLe⟩
-  obtain ⟨k, hk⟩ := launch_comp wf l s j
+  obtain ⟨k, w, hk⟩ := launch_comp wf l s j
   rw [hk, hd, hp]
   split
-  · exact (hI.ci j).launch (hl j ‹_›) k
+  · exact (hI.ci j).launch (hl j ‹_›) k w
   · exact hI.ci j
 
 theorem launch_mono (wf : Wf) (l : List Nat) (s : St) :
-    Mono s (l.foldl (runComp wf) (l.foldl stageIn s)) := by
+    Mono s (l.foldl (runComp wf) (l.foldl (stageIn wf) s)) := by
   refine ⟨fun j h => ?_, fun j f h => ?_, (launch_rest wf l s).2.2.1⟩
-  · obtain ⟨k, hk⟩ := launch_comp wf l s j; rw [hk]; split <;> simp [h]
-  · obtain ⟨k, hk⟩ := launch_comp wf l s j; rw [hk]; split <;> simp [h]
+  · obtain ⟨k, w, hk⟩ := launch_comp wf l s j; rw [hk]; split <;> simp [h]
+  · obtain ⟨k, w, hk⟩ := launch_comp wf l s j; rw [hk]; split <;> simp [h]
 
 end St4sd.C02L
